@@ -1,0 +1,42 @@
+//go:build verif
+
+// Exports for the verification harness in /verif.  Compiled only with
+// -tags verif; adds code, changes none.
+package kcache
+
+import (
+	logutil "github.com/boz/go-logutil"
+	"github.com/boz/kcache/filter"
+	metav1 "k8s.io/apimachinery/pkg/apis/meta/v1"
+)
+
+// VerifCache gives direct, goroutine-free access to the cache's sequential
+// core (doSync / doUpdate / doRefilter / doList / get).
+type VerifCache struct {
+	c *_cache
+}
+
+func NewVerifCache(log logutil.Log, f filter.Filter) *VerifCache {
+	return &VerifCache{&_cache{
+		filter: f,
+		items:  make(map[cacheKey]cacheEntry),
+		log:    log,
+	}}
+}
+
+func (v *VerifCache) Sync(list []metav1.Object) []Event { return v.c.doSync(list) }
+
+func (v *VerifCache) Update(evt Event) []Event { return v.c.doUpdate(evt) }
+
+func (v *VerifCache) Refilter(list []metav1.Object, f filter.Filter) []Event {
+	return v.c.doRefilter(list, f)
+}
+
+func (v *VerifCache) List() []metav1.Object { return v.c.doList() }
+
+func (v *VerifCache) Get(ns, name string) metav1.Object {
+	if entry, ok := v.c.items[cacheKey{ns, name}]; ok {
+		return entry.object
+	}
+	return nil
+}
